@@ -5,25 +5,25 @@ import json, subprocess, sys
 CLAIMED = {}
 
 TECH = {
- "C01": "per-path reaching definitions of the decoder options' setters, dominance of the character-data store by a non-emptiness test of the stored text, total-replacement form of the snake-case fold, counter-advance pairing of the tag sequence number, influence sets (data + phi-selecting control dependence) of decoder map writes; must-pass-through of child insertion; nil/type-set/bounds obligations, who-may-trim rule on values derived from character data",
+ "C01": "per-path reaching definitions of the decoder options' setters, dominance of the character-data store by a non-emptiness test of the stored text, total-replacement form of the snake-case fold, counter-advance pairing of the tag sequence number, influence sets (data + phi-selecting control dependence) of decoder map writes; must-pass-through of child insertion; nil/type-set/bounds obligations, who-may-trim rule on values derived from character data, sibling agreement of decoder set-up",
  "C02": "total-replacement (idempotence) form of the decoder's key folding, path-sensitive typestate of the element encoder's buffer writes (tag protocol, content-written obligation) over a product of tag state, branch-fact and dynamic-type-set valuations, interprocedural over local closures and helpers, numeric-conversion scan of the rendering functions, shared-key/literal scan, predicate-atom comparison of the two key scans, escape taint over SSA with a gated-phi sanitiser model, escape-table evaluation, map-range order effects, type-test dominance of the default-root wrap in the encoders' single-member loop, control-dependence classification of the ParseFloat call",
- "C03": "path-sensitive typestate of the element encoder's buffer writes (tag protocol, content-written obligation), loop path-cover of recursive encoder calls, error path search with phi renaming, escape taint",
+ "C03": "path-sensitive typestate of the element encoder's buffer writes (tag protocol, content-written obligation), loop path-cover of recursive encoder calls, error path search with phi renaming, escape taint, zone (DBM) facts at the reads of the optional tag arguments",
  "C04": "token-level path-sensitive typestate of the sequence encoder's writes (tag protocol, content-written obligation), sequence-counter pairing per block, dominance of the character-data store by a non-emptiness test of the stored text, map-range order effects with sort-dominance and own-value provenance of cached sort keys, producer/consumer shape contract, nil/type-set/bounds obligations, who-may-trim rule on values derived from character data (cut set = the option's variable), call-graph reachability of the escaping function from the markup arms, type-test dominance of the default-root wrap, unsafe-conversion scan, influence sets of the sequence decoder's cast inputs",
  "C05": "path-sensitive typestate of both element encoders' markup writes, escape taint, escape-table evaluation, path enumeration of the coupled setters, accumulator-coupling of validator input and returned bytes, use classification of the validating decoder (strict, reads a copy), error path search",
- "C06": "whole-program points-to ownership of the returned bytes (not reachable from package state), backward slice of returned bytes for textual rewriting, option-to-SetEscapeHTML flow or must-pass-through of json.HTMLEscape on option-true paths, who-may-decode rule for JSON over readers and files, wrapper composition, error path search, guard analysis of the top-level-array wrapper (under the first-byte test only, on every such path), no json.Marshal below the encoder, dominance of decoder-less success returns by the empty-input test, single-Decode reachability",
+ "C06": "whole-program points-to ownership of the returned bytes (not reachable from package state), backward slice of returned bytes for textual rewriting, option-to-SetEscapeHTML flow or must-pass-through of json.HTMLEscape on option-true paths, who-may-decode rule for JSON over readers and files, wrapper composition, error path search, guard analysis of the top-level-array wrapper (under the first-byte test only, on every such path), no json.Marshal below the encoder, dominance of decoder-less success returns by the empty-input test, single-Decode reachability, call-graph load scope of XML options below the JSON functions",
  "C07": "append/count pairing invariant, recursion-argument shape (keys[1:]) resolved through helper functions, per-iteration freshness of parsed records (no loop-carried value in a stored field), comma-ok presence discipline, append dominance by len(keys)==0, alias lint for y[:0] reuse, zone (DBM) proof that a segment remains wherever the indexed walker tests a value's type, compiler BCE report + zone analysis, backing-array ownership of the returned slice, verbatim (split/slice only) provenance of segment names, no numeric conversion of path segments in the legacy walker",
  "C08": "loop path-cover of walkers and must-reach of the member loops from the type test, locality of the predicate's rejections (inside the condition loop), referrer classification of the sub-key map, influence sets of breadcrumbs, comparison-operand provenance, points-to receiver effects, per-path reaching definitions of the field-separator setter, amount-wise pairing of appends and counter advances, loop-carried-influence test of the sub-key map's entries, option load scopes of the query functions",
  "C09": "loop path-cover with allowed skip conditions, guard implication for attribute-prefix tests (prefix known non-empty, through boolean phis and parameters), comma-ok presence discipline on the walker and the path resolution, leaf-append shape, zone proof for the final indexed step, wrapper composition and option forwarding, compiler BCE report, skip-path analysis of member loops (a key/prefix-dependent test with an outcome that bypasses the walker call)",
  "C10": "dominance of every write by presence evidence for the written key, guard/node agreement of sub-key tests and writes, self-call re-entry test, comma-ok presence discipline, per-block pairing of replacements and counter increments, key/value operand provenance, flag-gated list store, recursion-argument shape, loop-carried-influence test of the sub-key map's entries",
- "C11": "write enumeration through helpers, return-after-write reachability, operand provenance of the move, positional-termination or loop-exhaustion test of the parent walker, classification of path parts (last segment / path without it) through helper returns, type-set/bounds obligations, control independence of the write from the value parameter",
- "C12": "whole-program inclusion-based points-to analysis (receiver effects), loop path-cover of the pair validation tests, error path search, nil/type-set/bounds obligations, non-nil result on success paths of Copy, validation coverage of every pair through helper returns",
+ "C11": "write enumeration through helpers, return-after-write reachability, operand provenance of the move, positional-termination or loop-exhaustion test of the parent walker, classification of path parts (last segment / path without it) through helper returns, type-set/bounds obligations, control independence of the write from the value parameter, zone (DBM) lower bound of the segment list handed to the lookup walker",
+ "C12": "whole-program inclusion-based points-to analysis (receiver effects), loop path-cover of the pair validation tests, error path search, nil/type-set/bounds obligations, non-nil result on success paths of Copy, validation coverage of every pair through helper returns, control dependence of success returns on receiver-derived tests outside the pair loop",
  "C13": "io.Reader contract rules over Read call sites (dominance by n>0 / err!=nil), ByteReader provenance, constant buffer lengths, tee write dominance, handler stop-edge reachability, who-may-decode rule for JSON, decoder set-up agreement (majority signature) across the functions that configure an xml.Decoder, value-sensitive path feasibility of the JSON scanner for the closing brace and the escape flag",
  "C14": "referrer classification of the cast flag, dominance of option loads by the flag, must-analysis of excluded NaN/Inf spellings, cast call-site coverage, backward slice of cast inputs (no value read back from the node under construction), tag operand agreement of the two decoders' cast calls, parser base/bit-size constants, control-dependence classification of the ParseFloat call",
  "C15": "Go compiler prove pass (check_bce) as bounds oracle + zone (DBM) analysis + structural rules; type-set dataflow for assertions; nil-guard analysis; self-call re-entry test; error path search, lower-bound analysis of the array-size setter",
  "C16": "map-range effect classification with sort dominance and sort-key provenance, writer/concat wrapper shapes, indent-flag dominance of whitespace writes, validator use classification, nondeterministic-callee scan, option load scopes, object-identity sources in the nondeterministic-callee scan, single-root path analysis of the four encoders",
- "C17": "whole-program inclusion-based points-to analysis: per-root external objects, write-target queries for receivers, byte-slice arguments and package state (callbacks bound through static and dynamic types), result freshness, who-may-call rule for the option setters",
+ "C17": "whole-program inclusion-based points-to analysis: per-root external objects, write-target queries for receivers, byte-slice arguments and package state (callbacks bound through static and dynamic types), result freshness, who-may-call rule for the option setters, scan of stores through pointers loaded from package variables below the non-setter API",
  "C18": "global-writer enumeration, per-path reaching definitions of setters by argument-count class, call-graph load scopes, dominance of cast-option loads, who-may-call rule for the option setters, constant-set relation of the two trim cut sets",
- "C19": "wrapper/concat/file-loop shapes, who-may-decode rule for JSON over readers and files, gob type agreement and registration scan, result freshness by points-to, error path search, reachability of the append from the reader call without an error test",
+ "C19": "wrapper/concat/file-loop shapes, who-may-decode rule for JSON over readers and files, gob type agreement and registration scan, result freshness by points-to, error path search, reachability of the append from the reader call without an error test, classification of end-of-input tests (identity vs errors.Is) against reachable %w wrapping",
  "C20": "wrapper composition tables checked on resolved callees with receiver chaining and err-dominance, option forwarding, influence sets of the re-implemented walkers (no loop-carried breadcrumb), handler stop-edge reachability, parameter-influence purity of forwarded option flags",
 }
 
